@@ -7,6 +7,7 @@ use crate::util::Src;
 pub struct LayoutStats {
     pub comments: usize,
     pub comments_in_expr: usize,
+    pub comments_with_lone_cr: usize,
     pub nonraw_escapes: usize,
     pub escape_kinds: [usize; 7],
     pub extra_parens: usize,
@@ -23,6 +24,9 @@ pub struct Printer<'a, 'b> {
     /// allow redundant parentheses
     pub parens: bool,
     in_expr: bool,
+    /// comment bodies may contain carriage returns (off for the batch route: its replay records hold the model only and
+    /// rely on the layout staying the same function of the model)
+    pub cr_comments: bool,
     /// one escape form for every character of the literal being printed (where that form can express the character)
     uniform_escape: Option<u8>,
 }
@@ -57,17 +61,29 @@ pub fn print_canonical(g: &Grammar) -> String {
     p.out
 }
 
+/// the layout function as it was when the batch replay records were written (no carriage returns inside comments)
+pub fn print_with_stable(g: &Grammar, src: &mut Src, parens: bool) -> (String, LayoutStats) {
+    let mut p = Printer::new(src, true, parens);
+    p.cr_comments = false;
+    p.grammar(g);
+    (p.out, p.stats)
+}
+
 pub fn print_with(g: &Grammar, src: &mut Src, parens: bool) -> (String, LayoutStats) {
     let mut p = Printer::new(src, true, parens);
     p.grammar(g);
     (p.out, p.stats)
 }
 
-const COMMENT_BODIES: &[&str] = &["", " c", " 'x' | ; = {", " @export A = 'a';", "#", " é☃", "\t\"", " \\"];
+// a carriage return that is not followed by a line feed does not end a comment (`Comment = '#' {!'\n' char} '\n'`)
+const COMMENT_BODIES: &[&str] = &[
+    "", " c", " 'x' | ; = {", " @export A = 'a';", "#", " é☃", "\t\"", " \\",
+    " old:\rY = 'b';", "\r", " it's\r \"q", " x\r", "\r\r@export\r",
+];
 
 impl<'a, 'b> Printer<'a, 'b> {
     pub fn new(src: &'b mut Src<'a>, vary: bool, parens: bool) -> Self {
-        Printer { src, out: String::new(), stats: Default::default(), vary, parens, in_expr: false, uniform_escape: None }
+        Printer { src, out: String::new(), stats: Default::default(), vary, parens, in_expr: false, cr_comments: true, uniform_escape: None }
     }
 
     /// optional whitespace between two tokens; `need` = at least one separator is required
@@ -92,7 +108,7 @@ impl<'a, 'b> Printer<'a, 'b> {
             5 => self.out.push_str(" \x0C "),
             _ => {
                 // comment (must be terminated by a newline)
-                let body = *self.src.choose(COMMENT_BODIES);
+                let body = *self.src.choose(if self.cr_comments { COMMENT_BODIES } else { &COMMENT_BODIES[..8] });
                 if need || self.src.chance(128) {
                     self.out.push(' ');
                 }
@@ -100,6 +116,9 @@ impl<'a, 'b> Printer<'a, 'b> {
                 self.out.push_str(body);
                 self.out.push('\n');
                 self.stats.comments += 1;
+                if body.contains('\r') {
+                    self.stats.comments_with_lone_cr += 1;
+                }
                 if self.in_expr {
                     self.stats.comments_in_expr += 1;
                 }
